@@ -24,22 +24,16 @@ theorem C05_elabStep_total (env : Env) (s : St) (h : s.toUnwrap = []) :
     cases node with
     | frameObj f =>
       simp only [List.isEmpty_cons, Bool.false_eq_true, if_false, popleft?, bind, Except.bind, pure, Except.pure]
-      cases hr : env.elabFn f.pyframe (nextView rest.head?) with
+      cases hr : (elabOutcome env f (nextObj rest.head?) (env.elabFn f.pyframe (nextView rest.head?))).1 with
       | none => simp
-      | raise e => simp
-      | one el =>
+      | some items =>
         simp only []
-        by_cases hn : resolveElem (nextObj rest.head?) el = Obj.none
-        · simp [hn]
-        · simp [hn, last!, bne_iff_ne]
-      | seq es =>
-        simp only []
-        cases hm : es.map (resolveElem (nextObj rest.head?)) with
-        | nil => simp
+        cases items with
+        | nil => simp [requeue, replacing]
         | cons x xs =>
-          simp only [List.isEmpty_cons, Bool.false_eq_true, if_false, last!]
-          have : (x :: xs).getLast? = some ((x :: xs).getLast (by simp)) := List.getLast?_eq_some_getLast (by simp)
-          simp [this]
+          have hl : (x :: xs).getLast? = some ((x :: xs).getLast (by simp)) := List.getLast?_eq_some_getLast (by simp)
+          simp only [List.isEmpty_cons, Bool.false_eq_true, if_false, last!, requeue, replacing, hl]
+          simp
     | item i => cases rest <;> simp [popleft?, bind, Except.bind, pure, Except.pure, h]
     | none => cases rest <;> simp [popleft?, bind, Except.bind, pure, Except.pure, h]
 
@@ -90,7 +84,7 @@ theorem C05_elaborate_fail (env : Env) (s : St) (f : FrameRec) (d : Nat) (rest :
       ∧ s'.out = s.out ++ [⟨f, false⟩]
       ∧ s'.errors = s.errors ++ (if env.withContexts then (env.ctxErrs f.pyframe).map .hook else []) ++ [.hook e]
       ∧ s'.toUnwrap = (rest.map (fun e => (⟨none, e.node, e.depth⟩ : QE))).dropWhile (fun q => q.depth ≥ d) := by
-  simp [elabStep, h, hr]
+  simp [elabStep, h, hr, elabOutcome, requeue, replacing, backOf]
 
 /-- **outer frames kept**: every frame emitted before a failure (or before anything else that happens
 later) is still in the result, identical, in the same position; errors are only ever appended, so
